@@ -129,6 +129,7 @@ func Load(o LoadOpts) (*Prog, error) {
 		}
 		return nil, fmt.Errorf("type/load errors in repo packages (%s variant):\n  %s", o.Variant, strings.Join(errs, "\n  "))
 	}
+	p.canonicalise()
 	return p, nil
 }
 
